@@ -301,3 +301,27 @@ func cmdNonNil(cmd command) bool {
 //@   props C11:rec-decreases,pre@call
 //@   requires[C11] depth <= maxBodyStructureDepth
 //@   decreases 2*(maxBodyStructureDepth+1-depth)
+
+// ---------------------------------------------------------------------------
+// C02: option tables. Each table turns a set of boolean options into the list
+// of names written on the wire; a name is in the list exactly when its option
+// is set (so no requested option is dropped and none is invented). The loops
+// range over a map: __visited is the ghost set of keys already yielded.
+
+//@ pure
+func inStrings(l []string, n int, s string) bool {
+	return __exists(func(k int) bool { return 0 <= k && k < n && k < len(l) && l[k] == s })
+}
+
+//@ func returnSearchOptions(options *imap.SearchOptions) (result []string)
+//@   props C02
+//@   ensures options != nil ==> inStrings(result, len(result), "MIN") == options.ReturnMin
+//@   ensures options != nil ==> inStrings(result, len(result), "MAX") == options.ReturnMax
+//@   ensures options != nil ==> inStrings(result, len(result), "ALL") == options.ReturnAll
+//@   ensures options != nil ==> inStrings(result, len(result), "COUNT") == options.ReturnCount
+//@   ensures options != nil ==> inStrings(result, len(result), "SAVE") == options.ReturnSave
+//@   ensures options == nil ==> len(result) == 0
+//@   loop 0 vars (l []string)
+//@   loop 0 locals (m map[string]bool)
+//@   loop 0 invariant forall k int :: 0 <= k && k < len(l) ==> __visited(m, l[k]) && m[l[k]]
+//@   loop 0 invariant forall s string :: __visited(m, s) && m[s] ==> inStrings(l, len(l), s)
